@@ -818,7 +818,7 @@ def _build_shims():
     cpf = _t(k.sim_copyfile, _shutil.copyfile)
     mv = _t(k.sim_move, _shutil.move)
     _SHIMS = {
-        id(_mp): Shim(_mp, Process=SimProcess),
+        id(_mp): Shim(_mp, Process=SimProcess, active_children=sim_active_children),
         id(_time): Shim(_time, time=sim_time, sleep=sim_sleep, perf_counter=sim_time,
                         monotonic=sim_time),
         id(_tempfile): Shim(_tempfile, mkdtemp=mk_d, mkstemp=mk_s, gettempdir=gtd),
@@ -838,6 +838,15 @@ def _build_shims():
         id(_shutil.move): mv,
         id(_datetime.datetime): _SimDateTime,
     }
+
+
+def sim_active_children():
+    """multiprocessing.active_children() for a parent inside a simulated call: the workers of the current scheduler
+    whose exit has not been observed yet (each query is an exit-code poll, i.e. a yield point)"""
+    k = KERNEL
+    if not k.active or k.in_child or not k.sched_stack:
+        return _mp.active_children()
+    return [p for p in list(k.sched_stack[-1].procs) if p.exitcode is None]
 
 
 def _sim_open(file, mode='r', *a, **k):
